@@ -566,6 +566,17 @@ func TestVerifC05Blind(t *testing.T) {
 	})
 }
 
+// TestVerifC05Duplex: "never delivers bytes the peer did not send" also when the
+// attacker does nothing and both directions of a connection are busy at once
+// (reader and writer goroutine of each endpoint in parallel, as the relay runs
+// them) - the C01 free-running case under C05's name, thorough under -race.
+func TestVerifC05Duplex(t *testing.T) {
+	vfSetup(t)
+	c := ev.For("C05")
+	c.Rule("duplex: untampered full-duplex traffic - one reader and one writer goroutine per endpoint, all four at once, free-running wire with random segmentation, generated write sizes and pauses; oracle: each side delivers exactly what its peer wrote (in particular never its own outgoing bytes or padding), no panic, no Read error (thorough: -race); non-trivial = both directions carry a multi-frame write")
+	rapid.Check(t, func(rt *rapid.T) { vfFreeRunningCase(rt, c) })
+}
+
 // FuzzVerifC05TamperedStream: bytes -> surgery op over a fixed exchange.
 func FuzzVerifC05TamperedStream(f *testing.F) {
 	vfSetup(f)
